@@ -259,6 +259,38 @@ Definition create_default (t : sim) (cmd : N) : sim * option (list N) :=
   end.
 
 (* ------------------------------------------------------------------------------------------ *)
+(* Any sequence of calls on one Terminal                                                      *)
+(* ------------------------------------------------------------------------------------------ *)
+Inductive call :=
+| CDefault (cmd : N)                  (* CreateDefaultCommandData(cmd): nil without a handler *)
+| CCustom (cmd : N) (body : list N).  (* CreateCommandData(cmd, body) *)
+
+Definition do_call (t : sim) (c : call) : sim * option (list N) :=
+  match c with
+  | CDefault cmd => create_default t cmd
+  | CCustom cmd body => let r := create_command t cmd body in (fst r, Some (snd r))
+  end.
+
+(* what every call returns, in order (None = nil) *)
+Fixpoint run_calls (t : sim) (cs : list call) : list (option (list N)) :=
+  match cs with
+  | [] => []
+  | c :: rest => let r := do_call t c in snd r :: run_calls (fst r) rest
+  end.
+
+(* the frames actually produced *)
+Definition somes {A} (l : list (option A)) : list A :=
+  flat_map (fun o => match o with Some x => [x] | None => [] end) l.
+
+(* the calls that produce a frame, as (command, body): a default call without handler produces none
+   and must not consume a serial *)
+Definition effective (ver : N) (cs : list call) : list (N * list N) :=
+  flat_map (fun c => match c with
+                     | CDefault cmd => match default_body ver cmd with Some b => [(cmd, b)] | None => [] end
+                     | CCustom cmd body => [(cmd, body)]
+                     end) cs.
+
+(* ------------------------------------------------------------------------------------------ *)
 (* Specification side                                                                         *)
 (* ------------------------------------------------------------------------------------------ *)
 Definition digits (phone : list N) : Prop := Forall (fun d => d < 10) phone.
